@@ -413,6 +413,12 @@ class Interp:
     def st_FunctionDef(self, fr, s):
         pf = PseudoFunc(fr.fi, s, s.name)
         cid = self.fresh("c")
+        # a nested function that REBINDS variables of this frame (`nonlocal x`): the snapshot model below does not follow
+        # such writes, so from here on those variables are unknown - in this frame and inside the closure
+        rebound = [n for st in ast.walk(s) if isinstance(st, ast.Nonlocal) for n in st.names]
+        for n in rebound:
+            if n in fr.env:
+                fr.env[n] = unknown("nonlocal:" + n)
         self.closures[cid] = Closure(s, pf, dict(fr.env), fr.self_term, fr.cls, fr.module, fr.stack)
         self.closures[cid].guards = fr.guards
         # closures see later rebinding of captured names only through this snapshot plus
